@@ -8,6 +8,7 @@ import (
 
 	"verif/harness/cachex"
 	"verif/harness/clockx"
+	"verif/harness/crashx"
 	"verif/harness/forge"
 	"verif/harness/identx"
 	"verif/harness/idsx"
@@ -23,6 +24,8 @@ var commands = map[string]func(args []string){
 	"page":                page.Run,
 	"cache":               cachex.Run,
 	"cache-worker":        cachex.Worker,
+	"crash":               crashx.Run,
+	"crash-child":         crashx.Child,
 	"clock":               clockx.Run,
 	"forge":               forge.Run,
 	"forge-worker":        forge.Worker,
